@@ -469,6 +469,8 @@ func c07(c *Ctx) {
 		"unreachable. Also: reply-kind assertions in the request helpers, who may write `encrypted` / call SaveSession, and a panic census of the abort paths."
 	r.NotDecided = []string{"the trusted base: big.Int.Cmp, bytes.Equal and the TL decoder deliver the reply's fields faithfully (C01/C15)"}
 	c.errorsKept("R07.X", "the key exchange (makeAuthKey, its three requests, CreateConnection): an abort stays an abort", 6, rootMethods("makeAuthKey", "reqPQ", "reqDHParams", "setClientDHParams", "CreateConnection", "connect"))
+	r.Rule("R07.I", "every reply read while the exchange runs is handed to the exchange, whatever its kind (= R06.I filed under C07): a reader that passes on only the success constructors leaves makeAuthKey waiting for ever on a failure / retry reply instead of aborting", 2)
+	c.everyMessageDispatched("R07.I")
 	r.Rule("R07.G", "each row of the handshake table has a guard whose operands have the row's origins, whose differ-edge reaches no effect and whose agree-edge is on every entry→effect path", 13)
 	// the verdict on one reply depends on that reply and on this client's own values only: a fingerprint, nonce or
 	// key remembered in a package variable (cache, sync.Once, pool) from an earlier exchange makes the second client
